@@ -54,10 +54,12 @@ func (p *Prepared) costKey(fn string) string {
 
 func sortJobsByCost(ctx *Ctx, p *Prepared, jobs []*Job) {
 	h := loadHints(ctx)
-	if len(h) == 0 {
-		return
-	}
-	sort.SliceStable(jobs, func(a, b int) bool { return jobCost(ctx, h, p, jobs[a]) > jobCost(ctx, h, p, jobs[b]) })
+	sort.SliceStable(jobs, func(a, b int) bool {
+		if jobs[a].First != jobs[b].First {
+			return jobs[a].First
+		}
+		return jobCost(ctx, h, p, jobs[a]) > jobCost(ctx, h, p, jobs[b])
+	})
 }
 
 func writeHints(ctx *Ctx, p *Prepared, results []*JobResult) {
